@@ -26,13 +26,13 @@ TRUSTED = ["harness/hcalls: scripted Socket, single-step scheduler, item numbers
            "the internal state is read from the text of `format!(\"{:?}\", connection)` (derive(Debug) of zbus, async-lock, "
            "async-broadcast, std HashMap iteration order = the order the reader serves the channels)"]
 ASSUMPTIONS = ["async-broadcast contract (C19/Broadcast.v)",
+               "std::sync::Arc: into_inner returns the value to exactly the last holder",
                "async_lock::Mutex: mutual exclusion; which waiter is served first is not modelled (any)",
                "std::collections::HashMap: iteration visits every entry once, in an order that only changes when the map changes",
                "MatchRule::matches is a parameter of the model (property C21); the replay uses the specification's matcher for "
                "type/interface/member rules and compares it with the real one on every message",
                "executor: any runnable task may be picked; max_queued = Some(0) is not used (async_broadcast::broadcast(0) panics)"]
-PARTIAL = ["C20_delivery_partial", "C20_delivery_quiescent", "C20_registered", "C20_share_partial",
-           "C20_clone_uncounted_refuted", "C20_clone_count_refuted"]
+PARTIAL = []
 SHARDS = 4
 
 RULESETS = ["A*,A1,A1,B*", "**,A*,A*,A1", "A*,A*,A2,B1", "B*,A1,B*,B2", "**,**,B*,B1", "A1,A*,A1,**"]
@@ -43,7 +43,7 @@ def gen_case(rng, tier, allow=None):
     rules = rng.choice(RULESETS)
     if allow is None:
         r = rng.random()
-        allow = "c" if r < 0.12 else "x" if r < 0.30 else ""
+        allow = "c" if r < 0.22 else "x" if r < 0.40 else "cx" if r < 0.50 else ""
     n = rng.choice([20, 40, 60, 80, 120, 160]) if tier == "quick" else rng.choice([20, 60, 100, 200, 300])
     smallq = rng.random() < 0.8
     steps = []
@@ -134,18 +134,16 @@ def search(rng, bad_cases):
 ENABLED = True
 LEVEL = "proof"
 LEVEL_TEXT = ("Theorems in coq/theories/Properties/C20.v over a small-step model of add_match / remove_match / queue_remove_match / "
-              "MessageStream (poll, drop, async_drop, clone) / the socket reader's fan-out with back-pressure (C20/Model.v, with the "
-              "broadcast channel of C19/Broadcast.v and MatchRule::matches as a parameter), for every history, scheduler and peer: the "
-              "delivery equation for every registered stream at every moment (C20_delivery), back-pressure at full strength — the reader "
-              "is only ever blocked behind a stream the application can poll (C20_progress; the async_drop deadlock of the first round "
-              "was repaired by 90a1ccff and the model follows the repaired code). PARTIAL: MessageStream::clone copies the rule without "
-              "counting it, so dropping a clone unregisters the subscription of the streams still alive (C20_clone_uncounted_refuted, "
-              "confirmed on the real code, not repaired). For histories without clone: every stream is registered under its key until "
-              "the reader fails, the delivery equation holds for it, one subscription per rule with reference count = number of "
-              "holders (C20_delivery_partial, C20_registered, C20_share_partial).")
+              "MessageStream (poll, drop, async_drop, clone with the shared rule) / the socket reader's fan-out with back-pressure "
+              "(C20/Model.v, with the broadcast channel of C19/Broadcast.v and MatchRule::matches as a parameter), for every history, "
+              "scheduler and peer, at full strength (no exception class left): every stream is registered under its key until the "
+              "reader fails and has at every moment yielded + queued exactly the matching messages decided for its channel since it "
+              "subscribed, once, in order (C20_delivery, C20_registered); the reference count of a rule is the number of its holders "
+              "— one shared rule per for_match_rule stream and its clones, pending remove_match calls, the add_match creating it — and "
+              "all streams of a rule read one channel (C20_share); the reader is only ever blocked behind a stream the application can "
+              "poll (C20_progress). The three defects found on the way are repaired in the code (add_match race 3703ee13, async_drop "
+              "deadlock 90a1ccff, uncounted clones 3c4a83a4) and the model follows the repaired code.")
 LEVEL_NOTE = ("Trusted: Coq kernel; the hand-written model (tied to the code by replaying every recorded step of real histories incl. "
-              "the complete visible state after every step); the async-broadcast / async-lock / HashMap contracts; harness/hcalls. "
+              "the complete visible state after every step); the async-broadcast / async-lock / HashMap / Arc contracts; harness/hcalls. "
               "Runtime substrate (executor, wakers) assumed: protocol-level proof. The model keeps the labels of the pre-fix async_drop "
-              "(LDropSubs/LDropSender); they are proved unreachable (C20_no_async_drop_in_progress). The Vacant path of add_match follows "
-              "fix 3703ee13 (second is_empty check under the msg_senders lock; the model inserts the entry one step early, while "
-              "`subscriptions` is locked, and takes it back on failure).")
+              "(LDropSubs/LDropSender); they are proved unreachable (C20_no_async_drop_in_progress).")
